@@ -402,6 +402,7 @@ type c10Case struct {
 	Release   bool      `json:"release,omitempty"`   // client hs-*: the genuine reply is delivered after the junk (otherwise the junk arrives instead of it)
 	ProbeHost int       `json:"probeHost,omitempty"` // virtual host the final honest handshake aims at
 	Junk      []c10Junk `json:"junk"`
+	DelayMs   int       `json:"delayMs,omitempty"` // server target and open client: virtual milliseconds between the case's honest traffic and the junk (0: the junk arrives at the very instant the handshakes happened, so every timer it leaves behind is due at the same instant as theirs; 1000: while the timers of the honest handshakes are still running; 7000: after they have fired)
 	SettleS   int       `json:"settleS,omitempty"` // server target and open client: virtual seconds between the junk and the oracle (the handshake timeout is 5 s: state that junk left behind expires in between)
 }
 
@@ -1411,6 +1412,20 @@ func (r *c10RT) releaseHeld() {
 	c10Wait()
 }
 
+// delay lets virtual time pass between the case's honest traffic and the junk (c10Case.DelayMs).
+func (r *c10RT) delay() {
+	if r.c.DelayMs <= 0 {
+		return
+	}
+	time.Sleep(time.Duration(r.c.DelayMs) * time.Millisecond)
+	c10Wait()
+	if r.c.DelayMs < 5000 {
+		r.label("junk-arrives-later:within-the-handshake-timeout")
+	} else {
+		r.label("junk-arrives-later:after-the-handshake-timeout")
+	}
+}
+
 func (r *c10RT) stateTag() string { return r.c.Target + "-" + r.c.State }
 
 func (r *c10RT) finalProbe() {
@@ -1481,6 +1496,7 @@ func (r *c10RT) runServer() {
 		}
 	}
 	// the junk
+	r.delay()
 	closeDone := make(chan struct{})
 	for i, j := range c.Junk {
 		if c.State == "closing" && i == (len(c.Junk)+1)/2 {
@@ -1550,6 +1566,7 @@ func (r *c10RT) runClient() {
 		}
 		r.sess = append(r.sess, s)
 		r.liveIDs = append(r.liveIDs, s.id)
+		r.delay()
 		for _, j := range c.Junk {
 			data, class, structured := r.build(j)
 			if sig := r.triggersClient(s.cli, data); sig != "" {
@@ -1786,7 +1803,7 @@ func c10Run(t *testing.T, rec *vlib.Recorder) func(c c10Case, v *vlib.Verdict) {
 			v.Key += fmt.Sprintf("|n=%d|cut0=%d|%s%d.%d.%d", len(c.Junk), c.Junk[0].Cut, c.Junk[0].F, c.Junk[0].N, c.Junk[0].B1, c.Junk[0].B2)
 			if j0 := c.Junk[0]; j0.K == "tmpl" && j0.T >= 100 && j0.F == "" {
 				// (the verbatim-copy family: which of the case's own datagrams, from where, oracle when)
-				v.Key += fmt.Sprintf("|t=%d|src=%d|settle=%d|closed=%d", j0.T, j0.Src, c.SettleS, c.Closed)
+				v.Key += fmt.Sprintf("|t=%d|src=%d|delay=%d|settle=%d|closed=%d", j0.T, j0.Src, c.DelayMs, c.SettleS, c.Closed)
 			}
 		}
 	}
@@ -2036,6 +2053,15 @@ func c10Gen(table []c10Tmpl) func(t *rapid.T) c10Case {
 		for i := 0; i < n; i++ {
 			c.Junk = append(c.Junk, c10GenJunk(t, &c, table, &actors))
 		}
+		if c.Target == "server" || c.State == "open" {
+			// (drawn last: no other draw of the case moves)
+			if strings.HasPrefix(c.State, "mid-") {
+				// (the honest client gives up after 2 s: the junk is meant to meet a handshake in progress)
+				c.DelayMs = c10W[int](t, "delayMs", 0, 5, 500, 2, 1000, 2)
+			} else {
+				c.DelayMs = c10W[int](t, "delayMs", 0, 4, 1000, 2, 3000, 1, 7000, 1)
+			}
+		}
 		return c
 	}
 }
@@ -2110,6 +2136,15 @@ func c10CopyScenarios() []c10CopyScn {
 // bound is enough: the index wraps around). A discoverable session costs 5 handshake datagrams, a hidden one 2, the
 // baseline probe 2 more, closing a server-side handle at most 2; an idle server has no traffic of its own and gets the
 // table of valid messages of another handshake instead.
+func c10Pairs(a, b []int) (out [][2]int) {
+	for _, x := range a {
+		for _, y := range b {
+			out = append(out, [2]int{x, y})
+		}
+	}
+	return out
+}
+
 func c10OwnDatagrams(sc c10CopyScn, tableLen int) int {
 	hs := 5
 	if sc.Cfg.Hidden {
@@ -2319,23 +2354,27 @@ func TestVerifC10Sweep(t *testing.T) {
 	// saw it sends it again): every datagram of the case's honest traffic - each handshake message of every established
 	// session and of the handshake in progress, the held-back message, the probe messages - one copy per case, sent from
 	// the address the original came from, from the peer's address and from a third address, to an endpoint in every
-	// state; the oracle is evaluated at once and after the handshake timeout (5 s) has passed once and twice: whatever
+	// state; the copy arrives at the instant of the honest handshakes (every timer it arms is then due at the same instant
+	// as the original's), 1 s later (the originals' handshake timers are still running and fire FIRST) or 7 s later (they
+	// have fired); the oracle is evaluated at once and after the handshake timeout (5 s) has passed once and twice: whatever
 	// the copy left behind in the endpoint (a pending handshake, a timer) has expired in between. Then whole
 	// conversations: all of them in the original order, in reverse order, and in the original order from a third address.
 	for _, sc := range c10CopyScenarios() {
 		k := c10OwnDatagrams(sc, len(table))
 		settles := []int{0, 6, 11}
+		delays := []int{0, 1000, 7000}
 		releases := []bool{false}
 		switch {
 		case sc.State == "closing":
 			settles = []int{0}
 		case sc.Target == "client" && sc.State != "open":
-			settles, releases = []int{0}, []bool{true, false}
+			settles, delays, releases = []int{0}, []int{0}, []bool{true, false}
 		}
-		mk := func(settle int, release bool, junk ...c10Junk) c10Case {
-			return c10Case{Target: sc.Target, Cfg: sc.Cfg, State: sc.State, Sessions: sc.Sessions, Closed: sc.Closed, Release: release, SettleS: settle, Junk: junk}
-		}
-		for _, settle := range settles {
+		for _, sd := range c10Pairs(settles, delays) {
+			settle, delay := sd[0], sd[1]
+			mk := func(settle int, release bool, junk ...c10Junk) c10Case {
+				return c10Case{Target: sc.Target, Cfg: sc.Cfg, State: sc.State, Sessions: sc.Sessions, Closed: sc.Closed, Release: release, DelayMs: delay, SettleS: settle, Junk: junk}
+			}
 			for _, release := range releases {
 				if sc.State != "closing" {
 					for i := 0; i < k; i++ {
@@ -2385,7 +2424,7 @@ func TestVerifC10Sweep(t *testing.T) {
 	// complete only if nothing of the enumerated space had to be skipped because of an open finding
 	rec.SetExhaustive(complete && c10ExcludedTotal == 0)
 	rec.AddExtra("datagrams", datagrams)
-	rec.Extra("enumerated", "every message of an honest discoverable and hidden run (10 messages), every truncation length 0..len, first byte kept and replaced by each other valid type byte, bytes 4..8 kept and replaced by a live session id, against 7 server state/configuration pairs and 5 client states (quick tier: handshaking clients get the server-sent messages with the types a client reads, other messages up to 64 bytes); every message type with a length field x field and real length set consistently to every boundary value (around 0, 2^8, 2^14, 2^15, MaxPlaintextSize, MaxTotalPacketSize, 65507, 65535; as field value and as datagram length; exact and off by one) and to the message's own value -2..+2; transport / control / unknown-type datagrams sealed with the real sealing code under each of 6 guessable keys x 3 counters x pending-or-live / second live / unknown session id; ClientAuth (discoverable) and hidden requests (every configuration) by peers that run the unauthenticated part of the key exchange and put a chosen plaintext into the certificate field: first / second vector length prefix at every position relative to the room left (exact, 1..3 past, 0, 0xffff) x genuine / random contents x natural / 8 / 300 bytes; verbatim copies of every datagram of the case's own honest traffic (every handshake message of each established session and of the handshake in progress, the held-back message, probe messages; for an idle server the 10 messages of another handshake), one per case, x {from the address the original came from, from the peer's address, from a third address} x oracle {at once, 6 s, 11 s later: the 5 s handshake timeout has passed once / twice} against 13 server scenarios (idle, 1 / 2 established sessions, one closed by its owner, ClientAck / ClientAuth held back with and without established sessions, one certificate / two virtual hosts / hidden / hidden with three certificates) and 5 client scenarios, plus the whole conversation copied in the original order, in reverse order and from a third address (also racing Server.Close)")
+	rec.Extra("enumerated", "every message of an honest discoverable and hidden run (10 messages), every truncation length 0..len, first byte kept and replaced by each other valid type byte, bytes 4..8 kept and replaced by a live session id, against 7 server state/configuration pairs and 5 client states (quick tier: handshaking clients get the server-sent messages with the types a client reads, other messages up to 64 bytes); every message type with a length field x field and real length set consistently to every boundary value (around 0, 2^8, 2^14, 2^15, MaxPlaintextSize, MaxTotalPacketSize, 65507, 65535; as field value and as datagram length; exact and off by one) and to the message's own value -2..+2; transport / control / unknown-type datagrams sealed with the real sealing code under each of 6 guessable keys x 3 counters x pending-or-live / second live / unknown session id; ClientAuth (discoverable) and hidden requests (every configuration) by peers that run the unauthenticated part of the key exchange and put a chosen plaintext into the certificate field: first / second vector length prefix at every position relative to the room left (exact, 1..3 past, 0, 0xffff) x genuine / random contents x natural / 8 / 300 bytes; verbatim copies of every datagram of the case's own honest traffic (every handshake message of each established session and of the handshake in progress, the held-back message, probe messages; for an idle server the 10 messages of another handshake), one per case, x {from the address the original came from, from the peer's address, from a third address} x the copy arrives {at the instant of the honest handshakes, 1 s later (their handshake timers are running), 7 s later (they have fired)} x oracle {at once, 6 s, 11 s later: the 5 s handshake timeout has passed once / twice} against 13 server scenarios (idle, 1 / 2 established sessions, one closed by its owner, ClientAck / ClientAuth held back with and without established sessions, one certificate / two virtual hosts / hidden / hidden with three certificates) and 5 client scenarios, plus the whole conversation copied in the original order, in reverse order and from a third address (also racing Server.Close)")
 }
 
 // ---------------------------------------------------------------------------
